@@ -208,6 +208,12 @@ def run(ctx):
             ctx.decide(arg == T.atom(m.params[1]), "C03.route", f"{c.ident}.{name}", loc_of(m),
                        f"{name}(x) == data_transform.{want}(x)", f"{name} returns {T.show(ret)[:160]}")
 
+    # ---------------- the data transform's own Jacobians (necessary for a normalised density)
+    from ..report import reuse
+    from . import c04
+    reuse(ctx, c04.run, ("C04.deriv", "C04.anti", "C04.affine", "C04.wire", "C04.acc", "C04.unit"), "C03dt",
+          "data-transform rule shared with C04: the proposal density includes these Jacobians")
+
     # ---------------- Flow.__init__ default transform
     base = repo.cls(FLOW_BASE)
     init = base.resolve("__init__")
